@@ -297,7 +297,13 @@ def main():
             if not found_input:
                 res.violation("proof obligation no longer checks: props/%s.v" % pid, res.proof_broken, found=False)
     except Exception:
-        res.violation("check crashed", {"traceback": traceback.format_exc()}, found=False)
+        tb = traceback.format_exc()
+        try:
+            with open(os.path.join(BUILD, "crash.log"), "a") as f:
+                f.write("== %s %s %s\n%s\n" % (time.strftime("%Y-%m-%d %H:%M:%S"), pid, tier if "tier" in dir() else "", tb))
+        except Exception:
+            pass
+        res.violation("check crashed", {"traceback": tb}, found=False)
     return finish(res)
 
 
